@@ -287,7 +287,7 @@ fn announce_step(with_suffix: bool) {
 // @timeout 2400
 // @mem 22
 // @functions Port::handle_announce, Bmca::register_announce_message, ForeignMasterList::register_announce_message, ForeignMasterList::is_announce_message_qualified, AnnounceMessage::time_properties, PortActionIterator::with_forward_tlvs
-// @bounds one step from an arbitrary port state with an empty foreign-master list; fully symbolic Announce (stepsRemoved <= 65534, see D3 for 65535) from the parent or anyone else, with a concrete suffix of one propagating and one non-propagating TLV; path trace off (the path-trace receive path is c15_path_trace_*)
+// @bounds one step from an arbitrary port state with an empty foreign-master list; fully symbolic Announce (every stepsRemoved; the data-set update is asserted for 0..=254, for >= 255 only that nothing panics and nothing is recorded) from the parent or anyone else, with a concrete suffix of one propagating and one non-propagating TLV; path trace off (the path-trace receive path is c15_path_trace_*)
 // @assume Interval::as_core_duration / Duration::mul_f64 / core::mem::swap stubs as in c12_announce_receipt_timer
 #[kani::proof]
 #[kani::unwind(14)]
